@@ -23,7 +23,7 @@ PROPS = ["C19", "C20"]
 # single-line names: quotes, braces, angle brackets, '$', ':', non-ASCII
 NAMES = [None, "plain", 'say "hi"', "a: b", "{{x}} {y}", "<b>bold</b> & </div>", "$src $$ ${x}", "ünï©ødé 日本",
          "x --> 9{{y}}", "id_7, 01.01.2024 00:00", "section S", "tail  ", "</script><script>", "semi;colon, comma",
-         "A" * 40]
+         "A" * 40, "B" * 90]
 SECTIONS = [None, "Alpha", "Beta: x", "Гамма"]
 ANSI = re.compile(r"\x1b\[[0-9;:]*m")
 
